@@ -220,7 +220,20 @@ def features(layers):
         f.add(("scalar", l["kind"], l["in"]))
     f.add(("N", top["N"]))
     f.add(("M", top["M"]))
+    if layers[-1]["kind"] != "constant":
+        # a constant backend ignores its coordinate: only other primitives make coordinate-path errors observable
+        for l in layers[:-1]:
+            if l["kind"] not in ORDERS:
+                f.add(("obs", l["kind"], l["N"]))
     return f
+
+
+def wanted_features():
+    w = {("pair",) + p for p in well_kinded_pairs()}
+    for k in WRAPS + INTERPS + ("affine",):
+        for n in (1, 2, 3, 4):
+            w.add(("obs", k, n))
+    return w
 
 
 FIXED = [
@@ -285,7 +298,7 @@ def cover(seed, budget, min_stacks=0, max_depth=5):
         chosen.append(l)
         seen_types.add(cpp_type(l))
         covered |= features(l)
-    want_pairs = {("pair",) + p for p in well_kinded_pairs()}
+    want_pairs = wanted_features()
     tries = 0
     while len(chosen) < budget and tries < 200000:
         tries += 1
@@ -304,7 +317,7 @@ def cover(seed, budget, min_stacks=0, max_depth=5):
             covered |= f
         if not (want_pairs - covered) and len(chosen) >= min_stacks:
             break
-    return chosen, sorted(p[1:] for p in want_pairs - covered)
+    return chosen, sorted(want_pairs - covered)
 
 
 def all_kind_sequences(max_depth):
